@@ -43,10 +43,13 @@ impl Session {
         match timeout_in(Duration::from_secs(crate::CONFIG.keepalive_timeout()), async {
             let mut req = Request::init(self.ip);
             let mut req = unsafe {Pin::new_unchecked(&mut req)};
+            /* bytes of the next request that arrived together with the current one */
+            let mut unread = 0..0;
             loop {
-                req.clear();
-                match req.as_mut().read(&mut self.connection).await {
-                    Ok(Some(())) => {
+                let carried = req.clear_keeping(std::mem::take(&mut unread));
+                match req.as_mut().read_following(&mut self.connection, carried).await {
+                    Ok(Some(following)) => {
+                        unread = following;
                         let close = matches!(req.headers.Connection(), Some("close" | "Close"));
                         #[cfg(ohkami_verif)] crate::__verif::emit("parsed", close as usize, 0);
 
